@@ -1,12 +1,17 @@
 #!/bin/bash
 # K5 / C33: ./run.sh quick|thorough|build|replay <file>
-#   1. regenerates the -overlay (bin/_k5ov/) from the CURRENT /repo/internal/replication/{,drivers/}*.go
+#   1. regenerates the -overlay (bin/_k5ov/) from the CURRENT <repo>/internal/replication/{,drivers/}*.go
+#      (<repo> = the directory h/go.mod replaces the ledger module by; VERIF_REPO must agree; default /repo)
 #   2. go test -c -overlay ... -vet=off -> /verif/h/bin/k5.test
 #   3. runs TestC33 (unless `build`). Exit: 0 held, 1 VIOLATION line printed, 2 engine error.
 # Knobs (debugging): VERIF_K5_BOUND, VERIF_K5_LOGS, VERIF_K5_APPENDS, VERIF_K5_HORIZON,
 # VERIF_K5_WORKERS, VERIF_K5_NOEXTRA, VERIF_BUDGET_S, VERIF_K5_TRACELOGS (replay),
 # VERIF_K5_PAGE, VERIF_K5_MAXITEMS, VERIF_K5_FLUSH (with VERIF_K5_LOGS: one batched scenario),
 # K5_MUTATION=a..h (detection self-test).
+# Real-storage family (real_test.go): VERIF_K5_REAL_DEPTH (longest history; 5 quick, 6 thorough),
+# VERIF_K5_NOREAL=1 (skip it), VERIF_K5_REAL_ONLY=1 (only it), VERIF_K5_SPLIT=1|0 (force / forbid
+# the deployment with the manager in its own process; default: run iff known_findings.json
+# lists C33:foreign-log@split).
 set -u
 MODE="${1:-quick}"
 HERE="$(cd "$(dirname "$0")" && pwd)"
@@ -21,7 +26,17 @@ BIN="$H/bin/k5${K5_MUTATION:+mut}.test"
 mkdir -p "$OV"
 exec 9> "$OV/.lock"; flock 9   # generation + build are serialised per overlay dir
 cd "$H" || exit 2
-[ -f /repo/go.sum ] && cp /repo/go.sum go.sum 2>/dev/null
+# The repository under test is the directory h/go.mod `replace`s the ledger module by (that
+# is what gets compiled, so that is what the overlay must be keyed on); /repo by default.
+# VERIF_REPO, when set, must name that same directory: an overlay generated from another
+# tree would silently not apply (mutexes not shimmed, stale sources explored).
+MODDIR="$(go list -m -f '{{.Dir}}' github.com/formancehq/ledger 2>/dev/null)"
+REPO="${VERIF_REPO:-${MODDIR:-/repo}}"
+if [ -n "$MODDIR" ] && [ "$(realpath -m "$REPO")" != "$(realpath -m "$MODDIR")" ]; then
+  echo "ENGINE-ERROR property=C33 VERIF_REPO=$REPO but h/go.mod replaces github.com/formancehq/ledger by $MODDIR: the tree named by VERIF_REPO is not the one that is compiled"; exit 2
+fi
+export VERIF_REPO="${MODDIR:-$REPO}"   # spelled as the go command spells it: the overlay is keyed on these paths
+[ -f "$VERIF_REPO/go.sum" ] && cp "$VERIF_REPO/go.sum" go.sum 2>/dev/null
 
 if ! python3 "$HERE/genoverlay.py" "$OV" ${K5_MUTATION:-} 2> "$OV/gen.log"; then
   echo "ENGINE-ERROR property=C33 overlay generation failed"; cat "$OV/gen.log"; exit 2
